@@ -2,6 +2,7 @@
 """Copies confirmed seeded changes from /tmp/mut/<Cxx>/_out/m* into /verif/seeded/<Cxx>-m*/
 with a meta.json built from the agent's description and the evaluation log."""
 import json, os, re, shutil, sys, glob
+TAG = os.environ.get("ROUND", "")  # e.g. ROUND=r2 -> seeded/C01-r2-m1
 for pid in sys.argv[1:]:
     for d in sorted(glob.glob(f"/tmp/mut/{pid}/_out/m*")):
         m = os.path.basename(d)
@@ -13,7 +14,7 @@ for pid in sys.argv[1:]:
         if not ok:
             print("NOT CONFIRMED", d); continue
         checks = re.findall(r"== check (C\d+) \((\w+)\): exit=(\d)", L)
-        dst = f"/verif/seeded/{pid}-{m}"
+        dst = f"/verif/seeded/{pid}-{TAG + '-' if TAG else ''}{m}"
         os.makedirs(dst, exist_ok=True)
         shutil.copy(os.path.join(d, "patch.diff"), dst)
         for f in glob.glob(os.path.join(d, "*_test.go")):
